@@ -353,4 +353,80 @@ theorem tfAccRun_eq [DecidableEq α] (decay : α) (acc0 : List α) (hist : List 
 
 end Closed
 
+/-! ### Normalised, sign and clipped graft steps (round 2) -/
+section Variants
+variable {α : Type} [Field α] [LinearOrder α] [IsStrictOrderedRing α]
+
+theorem map_getD_zero {f : α → α} (hf : f 0 = 0) (g : List α) (i : Nat) :
+    (g.map f).getD i 0 = f (g.getD i 0) := by
+  rw [List.getD_eq_getElem?_getD, List.getD_eq_getElem?_getD, List.getElem?_map]
+  cases g[i]? <;> simp [hf]
+
+theorem normalize_getD (sqrt : α → α) (eps : α) (g : List α) (i : Nat) :
+    (normalize sqrt eps g).getD i 0 = g.getD i 0 / (norm sqrt g + eps) := by
+  unfold normalize
+  exact map_getD_zero (f := fun x => x / (norm sqrt g + eps)) (by simp) g i
+
+theorem map_normalize_getD (sqrt : α → α) (eps : α) (hist : List (List α)) (k : Nat) :
+    (hist.map (normalize sqrt eps)).getD k [] = normalize sqrt eps (hist.getD k []) := by
+  rw [List.getD_eq_getElem?_getD, List.getD_eq_getElem?_getD, List.getElem?_map]
+  cases hist[k]? <;> simp [normalize]
+
+theorem dsGraftStep_adagradNormalized (sqrt : α → α) (nc : Nat → α) (c : DSConfig α)
+    (hc : c.graftType = .adagradNormalized) (g acc : List α) :
+    dsGraftStep sqrt nc c g acc
+      = dsGraftStep sqrt nc { c with graftType := .adagrad } (normalize sqrt c.eps g) acc := by
+  unfold dsGraftStep; rw [hc]
+
+theorem dsGraftStep_rmspropNormalized (sqrt : α → α) (nc : Nat → α) (c : DSConfig α)
+    (hc : c.graftType = .rmspropNormalized) (g acc : List α) :
+    dsGraftStep sqrt nc c g acc
+      = dsGraftStep sqrt nc { c with graftType := .rmsprop } (normalize sqrt c.eps g) acc := by
+  unfold dsGraftStep; rw [hc]
+
+theorem dsGraftStep_clip (sqrt : α → α) (nc : Nat → α) (c : DSConfig α)
+    (hc : c.graftType = .rmsprop ∨ c.graftType = .rmspropNormalized) (cl : α) (hcl : c.clip = some cl)
+    (g acc : List α) :
+    dsGraftStep sqrt nc c g acc
+      = (clipScaled sqrt nc cl (dsGraftStep sqrt nc { c with clip := none } g acc).1,
+         (dsGraftStep sqrt nc { c with clip := none } g acc).2) := by
+  unfold dsGraftStep
+  rcases hc with hc | hc <;> simp [hc, hcl]
+
+theorem maxJ_eq_max (a b : α) : maxJ a b = max a b := by
+  unfold maxJ
+  split
+  · rename_i h; exact (max_eq_right h.le).symm
+  · rename_i h; exact (max_eq_left (not_lt.mp h)).symm
+
+theorem clipScaled_eq_scale (sqrt : α → α) (nc : Nat → α) (cl : α) (u : List α) :
+    clipScaled sqrt nc cl u = scale (1 / max 1 (norm sqrt u / sqrt (nc u.length) / cl)) u := by
+  unfold clipScaled scale
+  simp only [maxJ_eq_max]
+  apply List.map_congr_left
+  intro x _
+  rw [mul_one_div]
+
+theorem sumSq_map_sgn' (g : List α) (h : ∀ x ∈ g, x ≠ 0) : sumSq (g.map sgn) = (g.length : α) := by
+  induction g with
+  | nil => simp [sumSq]
+  | cons y ys ih =>
+    have hy : y ≠ 0 := h y (by simp)
+    have hs : sgn y * sgn y = 1 := by
+      unfold sgn
+      rcases lt_or_gt_of_ne hy with hlt | hgt
+      · have : ¬ 0 < y := not_lt.mpr hlt.le
+        simp [this, hlt]
+      · simp [hgt]
+    have ih' := ih (fun x hx => h x (by simp [hx]))
+    simp only [List.map_cons, sumSq, ih', List.length_cons, Nat.cast_succ, hs]
+    ring
+
+theorem sumSq_map_sgn (g : List α) (h : ∀ x ∈ g, x ≠ 0) :
+    sumSq (g.map fun x => 1 * sgn x) = (g.length : α) := by
+  have : (fun x : α => 1 * sgn x) = sgn := by funext x; exact one_mul _
+  rw [this]; exact sumSq_map_sgn' g h
+
+end Variants
+
 end PrecondVerif.Graft
